@@ -276,16 +276,18 @@ def r19_3(ctx):
 def r19_4(ctx):
     ctx.begin("R19.4", "set_last_datetime: init = last - unit*(time - 1)", floor=1)
     g = ctx.repo.method(PROJECT, "set_last_datetime")
-    for given_unit in (True, False):
+    for given_unit, set_init in ((True, True), (False, True), (True, False), (False, False)):
         I = mk_interp(ctx)
-        bind = {"last_datetime": Poly.sym("LAST"), "unit_timedelta": Poly.sym("U") if given_unit else Const(None), "set_init_datetime": Const(True)}
-        outs = I.run_function(g, bind=bind, heap={("self", "time"): Poly.sym("TIME"), ("self", "unit_timedelta"): Poly.sym("SU")})
+        bind = {"last_datetime": Poly.sym("LAST"), "unit_timedelta": Poly.sym("U") if given_unit else Const(None), "set_init_datetime": Const(set_init)}
+        outs = I.run_function(g, bind=bind, heap={("self", "time"): Poly.sym("TIME"), ("self", "unit_timedelta"): Poly.sym("SU"), ("self", "init_datetime"): Poly.sym("OLD")})
         u = Poly.sym("U") if given_unit else Poly.sym("SU")
         exp = Poly.sym("LAST") - u * (Poly.sym("TIME") - Poly.const(1))
         for st, ex in outs:
             r = ex[1] if ex and ex[0] == "return" else None
             stored = st.heap.get(("self", "init_datetime"))
-            ctx.instance(construct(g, f"unit-given={given_unit}"), sample={"returns": repr(r)})
+            if not set_init:
+                stored = exp if stored == Poly.sym("OLD") else stored
+            ctx.instance(construct(g, f"unit-given={given_unit},set_init={set_init}"), sample={"returns": repr(r)})
             if r != exp or stored != exp:
                 ctx.violation(construct(g, "formula"), g.loc(), f"set_last_datetime returns `{r!r}` / stores `{stored!r}` (expected `{exp!r}`: the last simulated step, index time-1, must fall on the given date)")
     ctx.end()
